@@ -1,10 +1,11 @@
-\* C40 exhaustive: payloads in both directions, every chunking, either application finishing first (cleanly or with
-\* an error), streams with failing writes; peers that only finish their sending half (writes to them keep working)
-SPECIFICATION Spec
+\* C40 liveness: once a side has ended the pipe terminates (both copiers finish, completion is reported), for both
+\* kinds of streams; copiers and the completion goroutine scheduled fairly
+SPECIFICATION FairSpec
 CONSTANTS
   Pay <- Pay21
-  Errors = TRUE
-  CloseBreaksWrite = FALSE
+  Errors = FALSE
+  CloseBreaksWrite = TRUE
   Variant = "noclose_on_err"
-INVARIANTS InvInOrder InvDelivered InvBothClosed InvCompleted InvEndToEnd InvNoHalfOpen
+INVARIANTS InvInOrder InvNoHalfOpen
+PROPERTY Terminates
 CHECK_DEADLOCK FALSE
